@@ -20,9 +20,13 @@
 (* yaclib_std::atomic<T> in both fault-injection backends and on            *)
 (* std::atomic<T> itself (cross-check of this transcription).               *)
 (***************************************************************************)
-EXTENDS Naturals, Sequences, TLC, Bitwise, Json
+EXTENDS Naturals, Sequences, TLC, Bitwise, Json, Atomic_fgen
 
 CONSTANTS Kind,       \* "int" | "bool" | "ptr" | "float" | "flag" (atomic_flag: test_and_set / clear, with fences in between)
+                      \* | "fx32" | "fx64": floating values whose sums are ROUNDED, absorbed or overflow.  A value is an index
+                      \* into the value table of Atomic_fgen; the one arithmetic fact the reference semantics needs -- the
+                      \* correctly rounded IEEE-754 sum / difference of two values -- is tabulated there (FxAdd / FxSub),
+                      \* computed independently of the library.  fetch_add returns the OLD value and stores FxAdd[old, arg].
           NL, B,      \* limbs and limb base
           MaxDepth,
           FullOps     \* TRUE: whole operation alphabet at every depth; FALSE: reduced operand set below depth 1
@@ -42,6 +46,15 @@ Add(a, b) == AddC(a, b, 1, 0)
 NotL(a) == [i \in Limbs |-> B - 1 - a[i]]
 Neg(a) == Add(NotL(a), Num(1))
 Sub(a, b) == Add(a, Neg(b))
+Fx == Kind \in {"fx32", "fx64"}
+\* row = value index + 1, column = position of the operand in the delta sequence
+DPos(sq, j) == CHOOSE k \in 1..Len(sq) : sq[k] = j
+Look(rows, dseq, a, b) == LET r == rows[a[1] + 1][DPos(dseq, b[1])] IN IF r = 9999 THEN Assert(FALSE, <<"sum not tabulated", a, b>>) ELSE Num(r)
+AddK(a, b) == IF Kind = "fx32" THEN Look(FxAddRows32, FxDeltaSeq32, a, b)
+              ELSE IF Kind = "fx64" THEN Look(FxAddRows64, FxDeltaSeq64, a, b) ELSE Add(a, b)
+SubK(a, b) == IF Kind = "fx32" THEN Look(FxSubRows32, FxDeltaSeq32, a, b)
+              ELSE IF Kind = "fx64" THEN Look(FxSubRows64, FxDeltaSeq64, a, b) ELSE Sub(a, b)
+
 AndL(a, b) == [i \in Limbs |-> a[i] & b[i]]
 OrL(a, b)  == [i \in Limbs |-> a[i] | b[i]]
 XorL(a, b) == [i \in Limbs |-> a[i] ^^ b[i]]
@@ -52,18 +65,23 @@ Operands ==
     [] Kind = "ptr"   -> {Num(100), Num(101), Num(103)}       \* element indices into the harness' array
     [] Kind = "float" -> {Num(7), Num(8), Num(9)}     \* never driven negative within the depth bound
     [] Kind = "flag"  -> {}
+    [] Kind = "fx32"  -> {Num(i) : i \in FxOperands32}
+    [] Kind = "fx64"  -> {Num(i) : i \in FxOperands64}
 Deltas ==   \* second operand of arithmetic operations
   CASE Kind = "int"   -> Operands
     [] Kind = "ptr"   -> {Num(0), Num(1), Num(3)}
     [] Kind = "float" -> {Num(0), Num(1), Num(2)}
+    [] Kind = "fx32"  -> {Num(i) : i \in FxDeltas32}
+    [] Kind = "fx64"  -> {Num(i) : i \in FxDeltas64}
     [] OTHER          -> {}
 Inits == CASE Kind = "int" -> {Zero, Num(1), Max, Sign, SignM1} [] Kind = "bool" -> {Zero, Num(1)}
            [] Kind = "ptr" -> {Num(100)} [] Kind = "float" -> {Num(8)} [] Kind = "flag" -> {Zero}
+           [] Kind = "fx32" -> {Num(i) : i \in FxInits32} [] Kind = "fx64" -> {Num(i) : i \in FxInits64}
 
 NoArg == <<>>
 
 ValueOps   == IF Kind = "flag" THEN {} ELSE {"store", "xchg", "assign"}
-ArithOps   == CASE Kind \in {"int", "ptr", "float"} -> {"fadd", "fsub", "add_assign", "sub_assign"} [] OTHER -> {}
+ArithOps   == CASE Kind \in {"int", "ptr", "float", "fx32", "fx64"} -> {"fadd", "fsub", "add_assign", "sub_assign"} [] OTHER -> {}
 BitOps     == IF Kind = "int" THEN {"fand", "for", "fxor", "and_assign", "or_assign", "xor_assign"} ELSE {}
 StepOps    == IF Kind \in {"int", "ptr"} THEN {"pre_inc", "post_inc", "pre_dec", "post_dec"} ELSE {}
 ReadOps    == IF Kind = "flag" THEN {"tas", "clear", "fence"} ELSE IF Kind = "bool" THEN {"load", "conv", "fence"} ELSE {"load", "conv"}
@@ -73,8 +91,8 @@ Instances(v) ==
        {[op |-> o, arg |-> NoArg, exp |-> NoArg, spur |-> FALSE] : o \in ReadOps \cup StepOps}
   \cup {[op |-> o, arg |-> a, exp |-> NoArg, spur |-> FALSE] : o \in ValueOps, a \in Operands}
   \cup {[op |-> o, arg |-> a, exp |-> NoArg, spur |-> FALSE] : o \in ArithOps \cup BitOps, a \in Deltas}
-  \cup {[op |-> "cas_strong", arg |-> a, exp |-> e, spur |-> FALSE] : a \in Operands, e \in (IF Kind = "flag" THEN {} ELSE Operands \cup {v})}
-  \cup {[op |-> "cas_weak", arg |-> a, exp |-> e, spur |-> s] : a \in Operands, e \in (IF Kind = "flag" THEN {} ELSE Operands \cup {v}), s \in BOOLEAN}
+  \cup {[op |-> "cas_strong", arg |-> a, exp |-> e, spur |-> FALSE] : a \in Operands, e \in (IF Kind = "flag" \/ Fx THEN {} ELSE Operands \cup {v})}
+  \cup {[op |-> "cas_weak", arg |-> a, exp |-> e, spur |-> s] : a \in Operands, e \in (IF Kind = "flag" \/ Fx THEN {} ELSE Operands \cup {v}), s \in BOOLEAN}
 
 One == Num(1)
 T == "true"
@@ -93,8 +111,8 @@ Apply(v, i) ==
     [] i.op = "cas_strong" -> IF v = i.exp THEN R(T, i.arg, i.exp) ELSE R(F, v, v)
     [] i.op = "cas_weak"   -> IF i.spur THEN R(F, v, v)          \* spurious failure: false, expected := current, no change
                               ELSE IF v = i.exp THEN R(T, i.arg, i.exp) ELSE R(F, v, v)
-    [] i.op = "fadd"       -> R(v, Add(v, i.arg), NoArg)
-    [] i.op = "fsub"       -> R(v, Sub(v, i.arg), NoArg)
+    [] i.op = "fadd"       -> R(v, AddK(v, i.arg), NoArg)
+    [] i.op = "fsub"       -> R(v, SubK(v, i.arg), NoArg)
     [] i.op = "fand"       -> R(v, AndL(v, i.arg), NoArg)
     [] i.op = "for"        -> R(v, OrL(v, i.arg), NoArg)
     [] i.op = "fxor"       -> R(v, XorL(v, i.arg), NoArg)
@@ -102,8 +120,8 @@ Apply(v, i) ==
     [] i.op = "post_inc"   -> R(v, Add(v, One), NoArg)
     [] i.op = "pre_dec"    -> R(Sub(v, One), Sub(v, One), NoArg)
     [] i.op = "post_dec"   -> R(v, Sub(v, One), NoArg)
-    [] i.op = "add_assign" -> R(Add(v, i.arg), Add(v, i.arg), NoArg)
-    [] i.op = "sub_assign" -> R(Sub(v, i.arg), Sub(v, i.arg), NoArg)
+    [] i.op = "add_assign" -> R(AddK(v, i.arg), AddK(v, i.arg), NoArg)
+    [] i.op = "sub_assign" -> R(SubK(v, i.arg), SubK(v, i.arg), NoArg)
     [] i.op = "and_assign" -> R(AndL(v, i.arg), AndL(v, i.arg), NoArg)
     [] i.op = "or_assign"  -> R(OrL(v, i.arg), OrL(v, i.arg), NoArg)
     [] i.op = "xor_assign" -> R(XorL(v, i.arg), XorL(v, i.arg), NoArg)
